@@ -19,6 +19,7 @@ import BV.Lemmas.HuffmanCreate
 import BV.Lemmas.HuffmanEntry
 import BV.Lemmas.HuffmanRead
 import BV.Lemmas.HuffmanStoreRead
+import BV.Lemmas.HuffmanStoreTree
 
 namespace BV.Props.C17
 open BV.Gen BV.Bits BV.Huffman
@@ -521,7 +522,8 @@ theorem store_tree_roundtrip_instances :
 
 
 open BV.Lemmas.HuffmanStoreRead in
-/-- `store_tree_roundtrip`, PARTIAL: the body of a complex prefix code description.
+/-- `store_tree_roundtrip_partial` (kept as the general entry-list lemma; the full
+statement is `store_tree_roundtrip` below): the body of a complex prefix code description.
 For every Kraft-complete depth vector `d` (entries `≤ 15`), either value of the
 two RLE switches, and every code-length code `cl`/`clBits` that is usable
 (`ClCode`: 18 lengths `≤ 15`, Kraft sum `≤ 1`, two or more used symbols, patterns
@@ -532,12 +534,8 @@ two RLE switches, and every code-length code `cl`/`clBits` that is usable
 RFC 7932 §3.5 reader (prefix-decode a code length symbol, read its extra bits,
 apply the repeat rules, stop when the code space is used up, pad with zeros)
 returns exactly `d` and stops exactly behind these bits.
-What is missing for the full statement about `BrotliStoreHuffmanTree`: the
-header (HSKIP and the code length code lengths in their fixed variable-length
-code) and the bookkeeping that the code built from the histogram of the entries
-is such a `cl` — both are covered on instances by
-`store_tree_roundtrip_instances` and `static_code_length_code_stored`, and the
-code-length code itself by `code_length_code_complete` + `canonical`. -/
+It holds for ANY usable code-length code, in particular for the static one of
+the fast builder (`example` below). -/
 theorem store_tree_roundtrip_partial (cl clBits : List Nat) (hc : ClCode cl clBits) (d : List Nat)
     (hd : ∀ x ∈ d, x ≤ 15) (hlen : d.length < 2 ^ 64) (hk : kraftSum 15 d = 32768)
     (useNZ useZ : Bool)
@@ -552,5 +550,42 @@ open BV.Lemmas.HuffmanStoreRead in
 example : ClCode kCodeLengthDepth kCodeLengthBits :=
   { hlen := by decide, hblen := by decide, hall := by decide, hk := by decide, h2 := by decide,
     hbits := by decide }
+
+
+/-- `store_tree_roundtrip` (FULL, for the complex form): for every depth vector
+`depths[..num]` with `num ≤ 704`, entries `≤ 15` and Kraft EQUALITY (what
+`tree_kraft_eq` guarantees for the builder's output), and a scratch tree of at
+least 37 nodes, `BrotliStoreHuffmanTree(depths, num, tree, 0, zeroed storage)`
+does not panic (no index out of range, no `BrotliWriteBits` assertion, the
+inner `BrotliCreateHuffmanTree(…, 18, 5, …)` terminates), and the RFC 7932 §3.5
+reader `readPrefixCode` — HSKIP, the code length code lengths in the order
+1,2,3,4,0,5,17,6,16,7..15 with their fixed variable-length code until the code
+space 32 is used up, the canonical code-length code (a single used symbol has
+a zero-length code word), then the code length symbols with the repeat codes
+16/17 and their chaining until the space 32768 is used up, zero padding —
+applied to the written bits returns exactly `depths[..num]` and consumes every
+bit.  Both branches of the code are covered: two or more code-length symbols
+in use (`num_codes = 2`, trailing zero code-length code lengths dropped), and a
+single one (`num_codes = 1`, all 18 lengths stored, its length zeroed before
+writing the symbols).
+The simple forms (NSYM 1..4 of `StoreSimpleHuffmanTree` and of the fast
+builder) and the fast builder's static-code form are covered by
+`store_tree_roundtrip_instances`, `static_code_length_code_stored` and
+`store_tree_roundtrip_partial` (not by a general theorem), and by the
+harness's independent reader on every generated case. -/
+theorem store_tree_roundtrip (depths : List Nat) (num : Nat) (tree : List Node)
+    (hnum : num ≤ depths.length) (h704 : num ≤ 704) (hd : ∀ x ∈ depths.take num, x ≤ 15)
+    (hk : kraftSum 15 (depths.take num) = 32768) (htl : 37 ≤ tree.length) :
+    ∃ w, storeHuffmanTree depths num tree [] = .ok w ∧
+      readPrefixCode num w = some (depths.take num, []) :=
+  Lemmas.HuffmanStoreTree.store_tree_roundtrip_gen depths num tree hnum h704 hd hk htl
+
+/-- non-vacuity: the depths `[2,4,4,3,0,1]` of the running example (followed by an
+unrelated entry), with the stored bits evaluated -/
+example : (6 ≤ [2, 4, 4, 3, 0, 1, 9].length) ∧ (∀ x ∈ [2, 4, 4, 3, 0, 1, 9].take 6, x ≤ 15) ∧
+    kraftSum 15 ([2, 4, 4, 3, 0, 1, 9].take 6) = 32768 ∧
+    (storeHuffmanTree [2, 4, 4, 3, 0, 1, 9] 6 (List.replicate 37 default) []).bind
+      (fun w => .ok (w.length, readPrefixCode 6 w)) = .ok (29, some ([2, 4, 4, 3, 0, 1], [])) := by
+  decide +kernel
 
 end BV.Props.C17
